@@ -14,7 +14,7 @@ RULE = ("random families of 1-4 inputs (+ optional climatology) with independent
         "only because ANOTHER input/climatology lacks a value there.")
 ASSUMPTIONS = ["observations agree between files wherever several files have them (files describe the same truth)",
                "all inputs of an ensemble request have the same number of members"]
-REQUIRED_COUNTERS = ["get_scores_compared", "cross_input_equal_checks", "metamorphic_pairs", "count_csv_rows"]
+REQUIRED_COUNTERS = ["get_scores_compared", "cross_input_equal_checks", "metamorphic_pairs", "count_csv_rows", "whole_array_checks"]
 ANCHOR_FUNCS = ["Data._get_score", "Data.get_scores", "Data._get_common_indices"]
 
 
@@ -145,6 +145,47 @@ def run_case(case, ctx):
                                           "different observations than input 0" % (cname, axis, idx, k), case)
             ctx.case("%d|%s|%s|%s|%s" % (F, bool(cpath), fmts, cname, axis), nontrivial,
                      {"inputs": gen.ds_summary(ds), "fields": cname, "axis": axis, "clim": case["clim_type"] if cpath else None})
+
+    # whole-array requests (axis All) for every input on ONE dataset object: same cells, identical observations
+    fields = [("obs",), ("fcst",)]
+    try:
+        refmodel.valid_cases(ds, 0, fields, opts)
+        ok_fields = all("fcst" in i["has"] for i in ds["inputs"])
+    except KeyError:
+        ok_fields = False
+    if ok_fields:
+        import verif.field
+        data = vutil.build_data(paths, cpath, opts)
+        times, leads, locs = refmodel.common_dims(ds, opts)
+        got = []
+        for rnd in range(2):          # twice: results must not drift with repeated / interleaved requests
+            for k in range(F):
+                o, f = data.get_scores([verif.field.Obs(), verif.field.Fcst()], k)
+                if rnd == 1:
+                    o2 = data.get_scores(verif.field.Obs(), k)
+                got.append((k, np.array(o, float), np.array(f, float)))
+        for (k, o, f) in got:
+            ctx.count("whole_array_checks")
+            bad = None
+            for a, t in enumerate(times):
+                for b, l in enumerate(leads):
+                    for c, s_ in enumerate(locs):
+                        v = refmodel.case_values(ds, k, fields, t, l, s_[0], opts)
+                        wo, wf = (float("nan"), float("nan")) if v is None else v
+                        if not vutil.num_equal(float(o[a, b, c]), wo, rel, rel) or not vutil.num_equal(float(f[a, b, c]), wf, rel, rel):
+                            bad = (t, l, s_[0], float(o[a, b, c]), float(f[a, b, c]), wo, wf)
+                            break
+                    if bad:
+                        break
+                if bad:
+                    break
+            if bad:
+                ctx.violation("whole-array-cell|clim=%s" % bool(cpath), "get_scores([obs, fcst], %d) (whole array, requested for every input in turn on one "
+                              "dataset): cell (%s,%s,%s) obs=%r fcst=%r, reference obs=%r fcst=%r" % ((k,) + bad), case)
+                break
+        ctx.case("%d|%s|%s|whole-array" % (F, bool(cpath), fmts), F >= 2)
+    else:
+        ctx.count("whole_array_checks", 0)
 
     # csv level: -agg count equals reference counts; metamorphic perturbation of another input
     if all("fcst" in i["has"] for i in ds["inputs"]):
